@@ -705,6 +705,173 @@ def node_resolution(which: int, kind: int, disp: int) -> bool:
     return done()
 
 
+def seq_of_int(a: int, b: int, tail: bytes) -> bool:
+    """
+    pre: _lo() <= a < _hi() and _lo() <= b < _hi()
+    pre: len(tail) <= 1
+    post: __return__
+    """
+    # containers with REAL integer leaves of every width (a container codec must not treat an element type specially)
+    tn = _tname()
+    n, signed = R.INTS[tn]
+    shape = SHARD["shape"]
+    if shape == "sequence":
+        ty, val = "sequence<%s>" % tn, [a, b]
+    elif shape == "set":
+        ty, val = "set<%s>" % tn, set([a])
+    elif shape == "mapping":
+        ty, val = "mapping<%s,%s>" % (tn, tn), dict()
+        val[a] = b
+    else:
+        ty, val = "tuple<%s,%s>" % (tn, tn), (a, b)
+    raw = _encode(val, ty)
+    items = [a, b] if shape != "set" else [a]
+    pre = 0 if shape == "tuple" else 8
+    if FMT():
+        if len(raw) != pre + n * len(items):
+            return fail("length")
+        if pre and not _u64_is(raw, 0, 1 if shape in ("set", "mapping") else 2):
+            return fail("count prefix")
+        for i, x in enumerate(items):
+            if R.le_value(raw[pre + n * i: pre + n * (i + 1)], n, signed) != x:
+                return fail("element %d is not the little-endian two's complement of the value" % i)
+    if RT():
+        back, pos = _decode_at(raw + tail, ty)
+        if shape == "sequence":
+            ok = isinstance(back, list) and len(back) == 2 and back[0] == a and back[1] == b
+        elif shape == "set":
+            ok = len(back) == 1 and a in back
+        elif shape == "mapping":
+            ok = len(back) == 1 and a in back and back[a] == b
+        else:
+            ok = isinstance(back, tuple) and len(back) == 2 and back[0] == a and back[1] == b
+        if not ok:
+            return fail("round trip of %s" % ty)
+        if pos != len(raw):
+            return fail("consumed")
+    return done()
+
+
+def seq_of_double(x: float, y: float, tail: bytes) -> bool:
+    """
+    pre: not math.isnan(x) and not math.isnan(y)
+    pre: len(tail) <= 1
+    raises: OverflowError
+    post: __return__
+    """
+    # two floats in one value: e.g. 0.0 and -0.0, which compare equal but are different bit patterns
+    ty = SHARD["ty"]
+    raw = _encode([x, y], "sequence<%s>" % ty)
+    w = 8 if ty == "double" else 4
+    rx = struct.pack(">d" if ty == "double" else ">f", x)
+    ry = struct.pack(">d" if ty == "double" else ">f", y)
+    if FMT():
+        if len(raw) != 8 + 2 * w or not _u64_is(raw, 0, 2):
+            return fail("length / count")
+        for i in range(w):
+            if raw[8 + i] != rx[w - 1 - i] or raw[8 + w + i] != ry[w - 1 - i]:
+                return fail("elements are not IEEE little endian, bit for bit")
+    if RT():
+        back, pos = _decode_at(raw + tail, "sequence<%s>" % ty)
+        wx = x if ty == "double" else struct.unpack(">f", rx)[0]
+        wy = y if ty == "double" else struct.unpack(">f", ry)[0]
+        if not (len(back) == 2 and back[0] == wx and back[1] == wy
+                and math.copysign(1.0, back[0]) == math.copysign(1.0, wx) and math.copysign(1.0, back[1]) == math.copysign(1.0, wy)):
+            return fail("round trip bit for bit")
+        if pos != len(raw):
+            return fail("consumed")
+    return done()
+
+
+def spot_seq_variant(idx: int, v: int, s: str, tail: bytes) -> bool:
+    """
+    pre: 0 <= idx < 4
+    pre: 0 <= v < 256
+    pre: len(s) <= 1 and _no_surrogates(s)
+    pre: len(tail) <= 1
+    post: __return__
+    """
+    # variants with alternatives of different sizes inside containers, short trailing data
+    tn = "sequence<variant<uint8_t,string,Offset>>"
+    i = pick(idx, 4)
+    vals = [[], [Variant(0, v)], [Variant(0, v), Variant(1, s)], [Variant(0, v), Variant(0, 7), Variant(0, 9)]][i]
+    raw = _encode(vals, tn)
+    if FMT():
+        if not _u64_is(raw, 0, len(vals)):
+            return fail("count")
+        want = 8 + sum(8 + (1 if x.index == 0 else 8 + len(R.utf8(x.val))) for x in vals)
+        if len(raw) != want:
+            return fail("length")
+    if RT():
+        back, pos = _decode_at(raw + tail, tn)
+        if not (len(back) == len(vals) and all(back[k].index == vals[k].index and back[k].val == vals[k].val for k in range(len(vals)))):
+            return fail("round trip")
+        if pos != len(raw):
+            return fail("consumed")
+    return done()
+
+
+def node_resolution_hist(which: int, edit: int) -> bool:
+    """
+    pre: 0 <= which < 4
+    pre: 0 <= edit < 4
+    post: __return__
+    """
+    # the same bytes decoded twice against one IR with an edit of that IR in between: each decode reflects the CURRENT attachment
+    w = pick(which, 4)
+    e = pick(edit, 4)
+    with untraced():
+        ira, irb, attached, other, det = _pool()
+        ir, m, s, bi, cb, db, px, sy = attached
+        node = [cb, sy, px, det][w]
+        tn = ("UUID", "Offset", "sequence<UUID>", "mapping<UUID,Offset>")[(w + e) % 4]
+        u = node.uuid
+        val = {"UUID": u, "Offset": gtirb.Offset(u, 3), "sequence<UUID>": [u], "mapping<UUID,Offset>": {u: gtirb.Offset(u, 0)}}[tn]
+        raw = bytes(_encode(val, tn))
+
+        def first_uuid_like(v):
+            if tn == "UUID":
+                return v
+            if tn == "Offset":
+                return v.element_id
+            if tn == "sequence<UUID>":
+                return v[0]
+            return list(v.keys())[0]
+
+        def attached_now():
+            return ira.get_by_uuid(u) is node and node.ir is ira
+
+        why = None
+        for round_ in range(2):
+            got = first_uuid_like(_ser.decode(raw, tn, ira.get_by_uuid))
+            if attached_now():
+                if got is not node:
+                    why = "round %d: attached node did not come back as the object itself" % round_
+            elif not (isinstance(got, UUID) and got == u):
+                why = "round %d: a node that is not attached came back as an object" % round_
+            if why:
+                break
+            # edit between the two decodes
+            if e == 0:
+                if w == 0:
+                    cb.byte_interval = None
+                elif w == 1:
+                    sy.module = None
+                elif w == 2:
+                    px.module = None
+                else:
+                    det.byte_interval = bi
+            elif e == 1:
+                m.ir = None
+            elif e == 2:
+                m.ir = irb
+            else:
+                pass
+    if why:
+        return fail("%s of node %d, edit %d: %s" % (tn, w, e, why))
+    return done()
+
+
 def codec_table() -> bool:
     """
     post: __return__
